@@ -47,3 +47,78 @@ fn native_modelcheck_decimal() {
     }
     println!("NATIVE-MODELCHECK ok pairs={pairs}");
 }
+
+/// Supporting validation of the container stand-in (only compiled when the replay build is made with the guard ON):
+/// on pseudo-random operation sequences over a small key space the inline `VecMap` agrees with `indexmap::IndexMap`
+/// (lookups, insert / replace results, removal results, length, positional access while no removal has happened) and with
+/// `std::collections::HashMap` as a set of entries; `VecSet` agrees with `indexmap::IndexSet`.
+#[cfg(barter_rs_barter_rs_verif)]
+#[test]
+fn native_modelcheck_containers() {
+    use barter_integration::collection::verif::{CAP, Entry, VecMap, VecSet};
+    use indexmap::{IndexMap, IndexSet};
+    use std::collections::HashMap;
+    let mut state = 0x9E37_79B9_7F4A_7C15u64;
+    let mut next = move || {
+        state ^= state << 13;
+        state ^= state >> 7;
+        state ^= state << 17;
+        state
+    };
+    let mut sequences = 0u64;
+    for _ in 0..20_000 {
+        let mut v: VecMap<u8, u32> = VecMap::default();
+        let mut i: IndexMap<u8, u32> = IndexMap::new();
+        let mut h: HashMap<u8, u32> = HashMap::new();
+        let (mut vs, mut is): (VecSet<u8>, IndexSet<u8>) = (VecSet::default(), IndexSet::new());
+        let mut removed = false;
+        for _ in 0..12 {
+            let (op, k, val) = (next() % 6, (next() % 6) as u8, (next() % 100) as u32);
+            match op {
+                0 | 1 => {
+                    if v.len() == CAP && !v.contains_key(&k) { continue; } // capacity is a stated bound of the stand-in
+                    assert_eq!(v.insert(k, val), i.insert(k, val));
+                    h.insert(k, val);
+                    if vs.len() < CAP || vs.contains(&k) { assert_eq!(vs.insert(k), is.insert(k)); }
+                }
+                2 => {
+                    let r = v.remove(&k);
+                    assert_eq!(r, i.shift_remove(&k));
+                    assert_eq!(r, h.remove(&k));
+                    removed |= r.is_some();
+                }
+                3 => {
+                    assert_eq!(v.get(&k), i.get(&k));
+                    assert_eq!(v.get(&k), h.get(&k));
+                    assert_eq!(v.get_index_of(&k), i.get_index_of(&k));
+                    assert_eq!(vs.contains(&k), is.contains(&k));
+                    assert_eq!(vs.get_index_of(&k), is.get_index_of(&k));
+                }
+                4 => {
+                    if v.len() == CAP && !v.contains_key(&k) { continue; }
+                    match v.entry(k) {
+                        Entry::Occupied(mut e) => { *e.get_mut() += 1; }
+                        Entry::Vacant(e) => { e.insert(val); }
+                    }
+                    *i.entry(k).and_modify(|x| *x += 1).or_insert(val) += 0;
+                    h.entry(k).and_modify(|x| *x += 1).or_insert(val);
+                }
+                _ => {
+                    if let Some(x) = v.get_mut(&k) { *x = val; }
+                    if let Some(x) = i.get_mut(&k) { *x = val; }
+                    if let Some(x) = h.get_mut(&k) { *x = val; }
+                }
+            }
+            assert_eq!(v.len(), i.len());
+            assert_eq!(v.len(), h.len());
+            // insertion order and positional access agree with IndexMap (shift_remove keeps order, as the stand-in does)
+            assert!(v.iter().map(|(k, x)| (*k, *x)).eq(i.iter().map(|(k, x)| (*k, *x))));
+            for p in 0..CAP + 1 {
+                assert_eq!(v.get_index(p).map(|(k, x)| (*k, *x)), i.get_index(p).map(|(k, x)| (*k, *x)));
+            }
+            let _ = removed;
+        }
+        sequences += 1;
+    }
+    println!("NATIVE-MODELCHECK-CONTAINERS ok sequences={sequences}");
+}
